@@ -263,6 +263,13 @@ def reorderGlyphs(font: ttLib.TTFont, new_glyph_order: List[str]):
     if not_loaded:
         raise ValueError(f"Everything should be loaded, following aren't: {not_loaded}")
 
+    # A CFF2 TopDict takes its charset from the font's glyph order at the time it
+    # is first accessed, and ensureDecompiled() does not reach it: read it (and
+    # the glyph name to charstring mapping) while the old order is in effect.
+    for tag in ["CFF ", "CFF2"]:
+        if tag in font:
+            font[tag].cff.topDictIndex[0].CharStrings
+
     font.setGlyphOrder(new_glyph_order)
 
     coverage_containers = {"GDEF", "GPOS", "GSUB", "MATH"}
